@@ -178,6 +178,7 @@ mod imp {
             brob_after_codestream: false,
             shape: format!("{family}-{}", program_shape(&prog)),
             source: "jxlgen".into(),
+            program: serde_json::to_value(&prog).ok(),
             bytes,
         };
         Scenario { case, family: family.into(), threads, shuttle_pool: rng.chance(1, 2), fault, iterations }
